@@ -520,6 +520,14 @@ class Interp:
             try:
                 env = {"__module__": module.name}
                 self._const_cache[key] = self.eval(expr, env)
+                # module-level statements that extend the object after its definition (TABLE[k] = v, TABLE.update(...), LIST += [...])
+                name = next((n_ for n_, e_ in module.assigns.items() if e_ is expr), None)
+                for st in getattr(module, "mutations", {}).get(name, []) if name else []:
+                    env2 = {"__module__": module.name, name: self._const_cache[key]}
+                    if isinstance(st, ast.AugAssign):
+                        self._const_cache[key] = self.binop(st.op, self._const_cache[key], self.eval(st.value, env2), st)
+                    else:
+                        self.exec_block([st], env2)
             finally:
                 self.stack, self.depth = saved
         return self._const_cache[key]
